@@ -610,6 +610,9 @@ def corpus_trees():
 
 
 def run_child(bindir, project, cache, timeout, sync=False):
+    import time
+
+    t0 = time.time()
     fd, out = tempfile.mkstemp(suffix=".json")
     os.close(fd)
     env = dict(os.environ, PATH=bindir + os.pathsep + os.environ.get("PATH", ""))
@@ -622,6 +625,7 @@ def run_child(bindir, project, cache, timeout, sync=False):
         res = {"error": (p.stdout[-1500:] + p.stderr[-1500:])}
     finally:
         os.unlink(out)
+    res["wall"] = round(time.time() - t0, 1)
     return res
 
 
@@ -678,6 +682,25 @@ def model_sched_call(res, cache):
     impl = {k: impl[k] for k in ("exit", "stuck", "normal", "outs", "cores")}
     impl["pending"] = 0
     return ("c16_sched", [targ[0], len(evs) // 2] + evs + targ[1:]), impl
+
+
+def is_sequential(res):
+    """did every assertion query get its answer and its callback before the next path was taken (what sync mode aims at;
+    a solver slower than the child's patience leaves a racing schedule, which is replayed as such)"""
+    kinds = {c["pid"]: c["kind"] for c in res["consumers"]}
+    ev = [(k, p) for k, p in res["events"] if p in kinds]
+    i = 0
+    while i < len(ev):
+        k, p = ev[i]
+        if k != "path":
+            return False
+        if kinds[p] == "assert":
+            if ev[i + 1:i + 3] != [("start", p), ("cb", p)]:
+                return False
+            i += 3
+        else:
+            i += 1
+    return True
 
 
 def decode_model_sched(v):
@@ -840,7 +863,10 @@ def run_e2e(rep, tier, r, fail, m=None):
             # racing runs (two workers): the schedule the child linearised, through the model's sched_run
             if m is not None:
                 for cache, res in ((True, a), (False, b_)):
-                    call, impl = model_test_call(res, cache) if sync else model_sched_call(res, cache)
+                    seq = sync and is_sequential(res)
+                    if sync and not seq:
+                        rep.count("e2e_sync_not_reached", name)
+                    call, impl = model_test_call(res, cache) if seq else model_sched_call(res, cache)
                     mcalls.append(call)
                     mimpl.append(impl)
                     mwhere.append((k, name, cache, tcase))
@@ -852,6 +878,7 @@ def run_e2e(rep, tier, r, fail, m=None):
                 diff = sorted(key for key in impl if mo is None or mo.get(key) != impl[key])
                 fail("broken-tie", f"project {k} {name} (cache {'on' if cache else 'off'}): run_test and the model's {'test_run' if 'skipped' in impl else 'sched_run'} differ in {diff}: implementation {impl}, model {mo}",
                      dict(tcase, cache=cache, implementation=impl, model=mo))
+    rep.coverage["L3_child_seconds"] = [o.get("wall") for o in outs]
     rep.coverage["L3_queries"] = tot_q
     rep.coverage["L3_cache_hits"] = tot_hits
     rep.coverage["L3_ids_monitored"] = tot_ids
